@@ -20,12 +20,24 @@ def run(ctx):
         tp = os.path.join(ctx.scratch, 'transcript-%s.txt' % mode)
         env = {'VERIF_C19_LOG': mode, 'VERIF_C19_TRANSCRIPT': tp, 'VERIF_C19_SCEN': nscen}
         env.update(extra)
-        ch = ctx.child(b, run='TestC19', timeout=300 if not ctx.thorough else 1800, env=env, label=mode)
+        ch = ctx.child(b, run='TestC19$', timeout=300 if not ctx.thorough else 1800, env=env, label=mode)
         if ch.rc != 0 or ch.report is None:
             ctx.absorb(ch, crash_key='C19/crash-with-logging-' + mode, what='TestC19[%s]' % mode)
             continue
         ctx.absorb(ch, what='TestC19[%s]' % mode)
         trans[mode] = open(tp).read().split('\n') if os.path.exists(tp) else None
+    # a fresh process per mode whose first mock is an interface stub, then os.Open is made to fail, then a by-name mock
+    lazy = {}
+    for mode in ('off', 'debug', 'trace'):
+        tp = os.path.join(ctx.scratch, 'lazy-%s.txt' % mode)
+        ch = ctx.child(b, run='TestC19LazyTable$', timeout=300, env={'VERIF_C19_LOG': mode, 'VERIF_C19_TRANSCRIPT': tp}, label='lazy-' + mode)
+        ctx.absorb(ch, crash_key='C19/crash-with-logging-' + mode, what='TestC19LazyTable[%s]' % mode)
+        lazy[mode] = open(tp).read().split('\n') if os.path.exists(tp) else None
+    for mode in ('debug', 'trace'):
+        if lazy.get('off') and lazy.get(mode) and lazy[mode] != lazy['off']:
+            i = next((k for k in range(min(len(lazy[mode]), len(lazy['off']))) if lazy[mode][k] != lazy['off'][k]), 0)
+            ctx.violations.append({'key': 'C19/lazy-loading-depends-on-logging', 'what': 'fresh process (interface stub first, os.Open made to fail, then a by-name mock): logging=%s gives %r where logging off gives %r' % (mode, lazy[mode][i], lazy['off'][i]),
+                                   'case': {'mode': mode, 'off': lazy['off'], 'mode_lines': lazy[mode]}})
     # out-parameter sweep: writes through pointers into the caller's frame
     for mode, _ in modes:
         lost = int(ctx.stats.get('outparam_writes_lost_on_stack_growth:' + mode, 0))
